@@ -143,6 +143,20 @@ def geometry_contract(pts, Rm, t):
     for name, g, e in zip(("index_distance", "index_angle", "index_dihedral"), idx, got):
         if abs(g - e) > 1e-4:
             return f"{name} {g:.6f} != coordinate variant {e:.6f}"
+    # without `periodic` the index variants are the plain ones whatever box is around: a box on the array, or one
+    # passed explicitly (smaller than the point spread, so that a minimum image would differ), is not used
+    small = np.diag([3.0, 4.0, 5.0]).astype(np.float32)
+    arr.box = small
+    for label, target, kw in (("array with a box", arr, {}), ("array, box passed", arr, {"box": small}), ("coordinates, box passed", f32, {"box": small}),
+                              ("array, periodic=False and box passed", arr, {"periodic": False, "box": small})):
+        idx2 = (float(struc.index_distance(target, np.array([[0, 1]]), **kw)[0]), float(struc.index_angle(target, np.array([[0, 1, 2]]), **kw)[0]),
+                float(struc.index_dihedral(target, np.array([[0, 1, 2, 3]]), **kw)[0]))
+        disp = np.asarray(struc.index_displacement(target, np.array([[0, 1]]), **kw)[0], dtype=float)
+        if not np.allclose(disp, (f32[1] - f32[0]).astype(float), atol=1e-4):
+            return f"index_displacement({label}) = {disp.round(4).tolist()} without periodic=True, plain difference {(f32[1] - f32[0]).round(4).tolist()}"
+        for name, g, e in zip(("index_distance", "index_angle", "index_dihedral"), idx2, got):
+            if abs(g - e) > 1e-4:
+                return f"{name}({label}) = {g:.6f} without periodic=True, coordinate variant {e:.6f}"
     return None
 
 
